@@ -115,12 +115,20 @@ def _apply(head, form, op, versioning, markings):
     fn_api = form == "dict" or op.get("api") == "function" or not hasattr(head, "add_markings")
     if kind in ("new_version", "custom", "set_modified", "unmodifiable"):
         kw = dict(op.get("changes") or {})
+        via_cp = op.get("via") == "custom_properties" and form != "dict"
         if kind == "custom":
-            kw[op["name"]] = op["value"]
+            if via_cp:
+                # the constructor's documented keyword for custom properties, handed through new_version's **kwargs
+                kw["custom_properties"] = {op["name"]: op["value"]}
+            else:
+                kw[op["name"]] = op["value"]
             if op.get("allow_custom") is not None:
                 kw["allow_custom"] = op["allow_custom"]
         elif kind == "set_modified":
-            kw["modified"] = op["_modified_text"]
+            if via_cp:
+                kw["custom_properties"] = {"modified": op["_modified_text"]}
+            else:
+                kw["modified"] = op["_modified_text"]
         elif kind == "unmodifiable":
             if op.get("via") == "custom_properties" and form != "dict":
                 # the same attempt smuggled through the custom_properties= keyword: it must not win over the copied original
@@ -279,8 +287,12 @@ def _run(case, clock, versioning):
             allowed = has_custom(prev_doc) if op.get("allow_custom") is None else op["allow_custom"]
             may_refuse = form == "object" and not allowed and has_custom(mm.expected_after(prev_doc, expect_changes))
             classes.append("custom:allow=%s" % op.get("allow_custom"))
+            if op.get("via") and form != "dict":
+                classes.append("custom-via:" + op["via"])
         elif kind == "set_modified":
             classes.append("caller-modified:" + mrel)
+            if op.get("via") and form != "dict":
+                classes.append("caller-modified-via:" + op["via"])
             expect_changes = dict(op.get("changes") or {})
             if t_req <= prev_exact:
                 must_refuse = True
@@ -459,6 +471,8 @@ def an_op(draw, typ, version, form, subject):
     elif kind == "set_modified":
         op["delta"] = draw(clock_delta)
         op["changes"] = changes(0)
+        if draw(st.integers(0, 4)) == 0:
+            op["via"] = "custom_properties"
     elif kind == "unmodifiable":
         if draw(st.integers(0, 3)) == 0:
             op["via"] = "custom_properties"
@@ -492,6 +506,8 @@ def an_op(draw, typ, version, form, subject):
         op["value"] = pick(draw, CUSTOM_VALUES + [None] * 3)
         op["allow_custom"] = pick(draw, [True, True, None, None, False])
         op["changes"] = changes(0) if draw(st.booleans()) else {}
+        if draw(st.integers(0, 3)) == 0:
+            op["via"] = "custom_properties"
     elif kind == "poke":
         op["which"] = draw(st.integers(0, 3))
     return op
@@ -523,7 +539,7 @@ def run(ctx):
     ctx.rule = ("histories over a generated subject (identity, malware, indicator, report, relationship, campaign of STIX 2.0 and 2.1; 2.1 file SCO "
                 "carrying custom created/modified/revoked; as library object or plain dict; created in years 1000-9990): up to %d operations "
                 "(new_version with 1-3 legal property changes incl. None removals, custom properties with allow_custom True/None/False, "
-                "caller-supplied modified, attempts on id/type/created/created_by_ref and id-contributing SCO properties, revoke and "
+                "caller-supplied modified, both also handed over through the custom_properties= keyword, attempts on id/type/created/created_by_ref and id-contributing SCO properties, revoke and "
                 "operations after it, object-level and granular marking calls, serialize->parse, in-place edit of a result dict); the "
                 "library clock is set before every operation to previous modified + d with d drawn from earlier (1us..500y) / equal / "
                 "+1..999us / +1ms / later.  Non-trivial = chain of >= 3 versions in which at least one step had a clock reading that is "
@@ -548,7 +564,8 @@ def run(ctx):
 
     core.run_given(ctx, history(30 if ctx.quick else 60), body, ctx.n(2600, 12000), label="c05-histories")
     need = ["clock:" + r for r in CLOCK_RELS] + ["version:2.0", "version:2.1", "form:object", "form:dict", "op:revoke", "op:poke", "op:roundtrip",
-                                                  "op:set_modified", "op:unmodifiable", "op:custom", "op:mark:gadd", "on-revoked:new_version"]
+                                                  "op:set_modified", "op:unmodifiable", "op:custom", "op:mark:gadd", "on-revoked:new_version",
+                                                  "custom-via:custom_properties", "caller-modified-via:custom_properties"]
     total = sum(v for k, v in ctx.classes.items() if k.startswith("clock:"))
     if not ctx.violations and ctx.evaluations >= 1000:
         for k in need:
